@@ -29,7 +29,7 @@ ASSUMPTIONS = [
     "precedence between error and failed when both occur is not demanded",
     "docs/appendix.status.rst is the documented table",
 ]
-REQUIRED = {"table.predicates": 20, "table.partition": 14, "table.inner_outer": 15,
+REQUIRED = {"wild.status_rollup_over_actual_children": {"quick": 8, "thorough": 300}, "table.predicates": 20, "table.partition": 14, "table.inner_outer": 15,
             "inject.scenario": {"quick": 1400, "thorough": 1400}, "inject.feature": {"quick": 500, "thorough": 3000},
             "inject.rule": {"quick": 500, "thorough": 3000}, "inject.outline": {"quick": 250, "thorough": 1200},
             "runs.containers_checked": {"quick": 20000, "thorough": 1000000}, "history.latest_run_only": {"quick": 200, "thorough": 8000},
@@ -512,6 +512,10 @@ def run(spec, mon):
     reset_histories(mon, lab, rng, 15 if tier == "quick" else 500)
     if shard == 0:
         mon.sample({"injected": {"kind": "feature", "children": ["passed", "skipped", "hook_error"], "expected": "error"}}, force=True)
+    if spec["shard"] == 0:
+        # behave's own acceptance features as workload: the probes of bvm.wild in every behave process they spawn
+        from ..wild import run as wild
+        wild.feed(mon, ID, spec.get("tier", "quick"))
 
 
 def replay(case, mon):
@@ -534,4 +538,4 @@ LEVEL_TEXT = ("Exploration with exhaustive cores: the status predicates and inne
               "abort, never-started features, dry-run, hook faults, raising cleanups), both after the run and inside "
               "reporter.feature(); auto-retry histories must end in the statuses of the latest attempt.")
 LEVEL_NOTE = "Trusted: the invariant in runbase.rollup_checks (written from the statement), the doc parser; bounded tuple length."
-TECHNIQUE = "runtime monitoring: invariant checked at quiescent points on live model objects + exhaustive status injection + documented-table oracle"
+TECHNIQUE = "runtime monitoring: invariant checked at quiescent points on live model objects + exhaustive status injection + documented-table oracle; plus oracle-free invariant probes armed (sitecustomize) in every behave process that the repository's own acceptance features spawn"
